@@ -40,6 +40,9 @@ show where they do not.
   argument default twice / at the wrong line), the `<%block>` call site (`block_call_counterexample`),
   declaration lines that follow an inline def (`preamble_after_inline_def_counterexample`);
   hence no unconditional `codegen_line_map_correct`, only `codegen_line_map_partial`;
+* F-C12-relmodfile – the module path of the `module_filename` / `modulename_callable` route is not made
+  absolute: given relative, the template's frames are reported as ordinary Python frames and its warnings
+  against the module file (`relative_module_filename_counterexample`, `module_filename_frames_found_partial`);
 * outside the model, oracle only: F9c (a parse-time warning in python that the generator re-emits through
   `ast` – argument lists, filter lists – is dropped and never raised again), F13 (filter action `error`:
   compile-stage and module-body warnings surface as bare exceptions located in the generated module), F5
@@ -401,6 +404,47 @@ theorem source_line_first (text below : Str) (h : '\n' ∉ text) :
   rw [splitNL_append, splitNL_of_clean text h]; rfl
 
 example : (Tb.linesOf "a\x0cb\u2028c\rd\n${1/0}\nlast".toList)[1]? = some "${1/0}".toList := by decide
+
+/-! ### the registry key of a module-file template is the file name Python reports
+
+A frame is rewritten (and a warning translated) only if the file name CPython reports for the module –
+always the absolute path – *is* the key mako registered, i.e. the module path computed in
+`Template.__init__`.  Whether that path is made absolute there is regenerated per branch
+(`Generated.TbCfg.moduleDirectoryPathAbsolute`, `…moduleFilenamePathAbsolute`). -/
+
+/-- named obligation: the `module_directory` branch applies `os.path.abspath` -/
+theorem module_directory_path_absolute : Generated.TbCfg.moduleDirectoryPathAbsolute = true := by decide
+
+/-- **for /repo, `module_directory` templates** – whatever spelling of the directory (relative to the working
+    directory, un-normalised): the registered key is the reported file name, so the frame is found in the
+    registry and rewritten by `Tb.rewrite` -/
+theorem module_directory_frames_found (abs : Str → Str) (path : Str) (info : Tb.Info) (reg : Tb.Registry) :
+    Tb.registryKey Generated.TbCfg.moduleDirectoryPathAbsolute abs path = Tb.reportedFilename abs path ∧
+    (((Tb.registryKey Generated.TbCfg.moduleDirectoryPathAbsolute abs path, info) :: reg).lookup
+        (Tb.reportedFilename abs path) = some info) := by
+  rw [module_directory_path_absolute]
+  simp [Tb.registryKey, Tb.reportedFilename]
+
+/-- **partial** for a path that is *not* made absolute (the `module_filename` / `modulename_callable`
+    branch of /repo, finding F-C12-relmodfile): the frame is found when the given path is absolute already -/
+theorem module_filename_frames_found_partial (abs : Str → Str) (path : Str) (habs : abs path = path) :
+    Tb.registryKey false abs path = Tb.reportedFilename abs path := by
+  simp [Tb.registryKey, Tb.reportedFilename, habs]
+
+example : (fun p : Str => if p.head? = some '/' then p else "/cwd/".toList ++ p) "/m/x.py".toList = "/m/x.py".toList := by
+  decide
+
+/-- F-C12-relmodfile: with a relative `module_filename` the key is not the reported name – the template's
+    frames are classified as ordinary Python frames (`frames_classified_plain` applies to them) -/
+theorem relative_module_filename_counterexample :
+    let abs : Str → Str := fun p => if p.head? = some '/' then p else "/cwd/".toList ++ p
+    Generated.TbCfg.moduleFilenamePathAbsolute = false ∧
+    Tb.registryKey Generated.TbCfg.moduleFilenamePathAbsolute abs "mods/x.py".toList ≠
+      Tb.reportedFilename abs "mods/x.py".toList ∧
+    Tb.rewrite [(Tb.registryKey Generated.TbCfg.moduleFilenamePathAbsolute abs "mods/x.py".toList,
+                 ⟨[1], ["t".toList], "x.html".toList, "t".toList⟩)]
+      ⟨Tb.reportedFilename abs "mods/x.py".toList, 1, [], []⟩
+      = some ⟨⟨"/cwd/mods/x.py".toList, 1, [], []⟩, none⟩ := by decide
 
 /-- **frames_classified** (3): one record per frame, in order, whatever the mix of template and
     ordinary modules (several templates in one traceback included) -/
